@@ -224,7 +224,9 @@ class RunWeekly(RunPeriod):
     """
 
     def compare_dates(self, now, date_to_compare):
-        if now.year != date_to_compare.year or now.week != date_to_compare.week:
+        # compare ISO (year, week) pairs: the calendar year changes inside ISO
+        # week 52/53/1, and equal week numbers can be a year apart
+        if now.isocalendar()[:2] != date_to_compare.isocalendar()[:2]:
             return True
         return False
 
